@@ -5,7 +5,7 @@ from .. import typegen as TG
 
 ID = "C14"
 LEAN_MODULE = "Ucfg.Props.C14"
-LEVEL_TEXT = 'Every error the model raises is typed with Reason and Class (conversion, getter, path get/set, validation); path and source in the message are decided on the implementation with exactly one injected fault confirmed by the model (metadata is not modelled: partial).'
+LEVEL_TEXT = 'Every error the model raises is typed with Reason and Class: per site (conversion, getter, path get/set, validation) and LIFTED to the whole typed unpacker (unpack_error_typed / unpack_failure_is_ucfg_error: for every target type without interface{} - structs with any tags incl. inline, pointers, slices, arrays, maps, regexp, Config - every pre-filled value, option set and configuration, an error returned by Unpack is a ucfg.Error; induction over the fuel with a claim per model function); path and source in the message are decided on the implementation with exactly one injected fault confirmed by the model (metadata is not modelled: partial).'
 CORRESPONDENCE = "Err values of Unpack/Path/Conv models ~ errors returned by NewFrom / Merge / Unpack / getters / Remove / Has / CountField"
 RULE = ("valid (configuration, target type) pairs from C04's generators with exactly ONE fault injected at a random setting at any depth "
         "(inside lists, maps, pointers, inline fields): wrong kind, failed conversion, out of range, failed validator, wrong list "
